@@ -36,6 +36,16 @@ def check_part(ctx, case, outpars, srcpars, dup, features):
         i = occ[0]
         if toks_out[i] != p.tokens:
             ctx.fail('text migrated between paragraphs or changed order inside one', case, {'paragraph': p.k, 'part': p.part, 'source_tokens': p.tokens, 'output_paragraph': outpars[i]}, features=features); return False
+        # tokens and alt-text markers in document order
+        ATOM = re.compile(r'«(\d+)»|----Image alt text---->([^<]*)<')
+        want_atoms = []
+        for x in p.own:
+            if src.ptag(x) in ('w:t', 'm:t'): want_atoms += [('t', t) for t in src.TOKEN.findall(x.text or '')]
+            elif src.ptag(x) == 'wp:docPr' and x.get('descr') is not None and '<' not in x.get('descr'): want_atoms.append(('alt', x.get('descr')))
+        got_atoms = [('t', m.group(1)) if m.group(1) else ('alt', m.group(2)) for m in ATOM.finditer(outpars[i])]
+        clean = not any(src.ptag(x) == 'wp:docPr' and '<' in (x.get('descr') or '') for x in p.own)      # a description with '<' cannot be delimited
+        if clean and got_atoms != want_atoms and any(k == 'alt' for k, _ in want_atoms):
+            ctx.fail('text and picture stand-ins of a paragraph are not in document order', case, {'paragraph': p.k, 'part': p.part, 'expected_order': want_atoms, 'output_paragraph': outpars[i]}, features=features); return False
         # every text node in full (also whitespace-only ones), in order
         pos = 0
         for x in p.own:
